@@ -178,6 +178,17 @@ def rav(x):
 # ---------------------------------------------------------------------------
 # KNeighbors
 # ---------------------------------------------------------------------------
+def extras(shape, salt):
+    """extra coordinate arrays (vertical; for odd salt also time) of the given shape: non-constant and large
+    compared with the horizontal distances.  Only easting and northing may be used by the C15 entry points."""
+    size = int(np.prod(shape)) if len(np.shape(np.zeros(shape))) else 1
+    up = (((np.arange(size) * 7 + salt * 3) % 13) - 6) * 25.0 + salt
+    out = (up.reshape(shape),)
+    if salt % 2:
+        out += ((((np.arange(size) * 5 + salt) % 7) * 1000.0 - 17.0).reshape(shape),)
+    return out
+
+
 def clobber_arrays(how, arrays):
     """the caller reuses its own arrays in place after fit"""
     for a in arrays:
@@ -204,8 +215,8 @@ def knn_case(vd, de, dn, dv, qe, qn, combos, kind, extra=False, rnd=None, reuse=
         (pdv,), tf1 = presentall(rnd, (dv,), ("layout", "series", "dtype", "nofloat32"))
         tags["fit"] = tf2 + tf1
         (pqe, pqn), tags["predict"] = presentall(rnd, (qe, qn), ("layout", "series", "list", "dtype"))
-    coords = (pde, pdn) + ((np.zeros(np.shape(de)) + 7.0,) if extra else ())
-    qcoords = (pqe, pqn) + ((np.zeros(np.shape(qe)) - 3.0,) if extra else ())
+    coords = (pde, pdn) + (extras(np.shape(de), 1) if extra else ())
+    qcoords = (pqe, pqn) + (extras(np.shape(qe), 4) if extra else ())
     shape_ok, obs, entries = True, [], []
     try:
         for red, k in combos:
@@ -237,8 +248,9 @@ def knn_case(vd, de, dn, dv, qe, qn, combos, kind, extra=False, rnd=None, reuse=
         shape_ok, obs, cobs = False, "%s: %s" % (type(ex).__name__, ex), "None"
     term = "c15_knn %s %s %s %s %s %s %s" % (dl(de), dl(dn), dl(dv), dl(qe), dl(qn), cbool(shape_ok), cobs)
     tf, tp = tags.get("fit", ["nd"] * 3), tags.get("predict", ["nd"] * 2)
-    repro = ("import numpy as np, verde; from harness.c15 import mk\n"
+    repro = ("import numpy as np, verde; from harness.c15 import mk, extras\n"
              "c=(mk(%r, %r), mk(%r, %r)); d=mk(%r, %r); q=(mk(%r, %r), mk(%r, %r))\n"
+             "%s"
              "A=%r  # the same instance is fitted on A first (None: fresh instance)\n"
              "for red, k in %r:\n"
              "    g = verde.KNeighbors(k=k, reduction={'RMean': np.mean, 'RMedian': np.median, 'RMin': np.min, 'RMax': np.max}[red])\n"
@@ -247,6 +259,7 @@ def knn_case(vd, de, dn, dv, qe, qn, combos, kind, extra=False, rnd=None, reuse=
              "    if %r is not None: from harness.c15 import clobber_arrays; clobber_arrays(%r, [c[0], c[1], d])\n"
              "    print(red, k, g.predict(q))"
              % (fl(de), tf[0], fl(dn), tf[1], fl(dv), tf[2], fl(qe), tp[0], fl(qn), tp[1],
+                "c += extras(np.shape(c[0]), 1); q += extras(np.shape(q[0]), 4)  # extra (vertical, time) coordinates\n" if extra else "",
                 None if prefit is None else [fl(x) for x in prefit], [list(c) for c in combos], clobber, clobber))
     return Case({"fn": "KNeighbors", "combos": [list(c) for c in combos], "easting": fl(de), "northing": fl(dn), "data": fl(dv),
                  "query_easting": fl(qe), "query_northing": fl(qn), "extra_coords": extra, "presentation": tags, "reuse_instance": reuse,
@@ -282,7 +295,7 @@ def gen_knn(vd, rnd, tier, cases):
             qe, qn = reshape2(rnd, qe, qn)
         if c % 3 == 0:
             de, dn, dv = reshape2(rnd, de, dn, dv)
-        extra = c % 5 == 0
+        extra = c % 3 == 0
         # every k = 1..n for each reduction (one case per reduction: the queries' keys are sorted once per case)
         for r in (reds if n <= 15 else [reds[c % 4], reds[(c + 1) % 4]]):
             cases.append(knn_case(vd, de, dn, dv, qe, qn, [(r, k) for k in range(1, n + 1)], "knn-%s-%s" % (mode, r[1:].lower()), extra,
@@ -386,7 +399,7 @@ def meddist_case(vd, e, n, ks, pname, kind, extra=False, rnd=None):
     pe_, pn_ = e, n
     if rnd is not None:
         (pe_, pn_), tags = presentall(rnd, (e, n), ("layout", "series", "list", "dtype"))
-    coords = (pe_, pn_) + ((np.zeros(np.shape(e)) + 2.0,) if extra else ())
+    coords = (pe_, pn_) + (extras(np.shape(e), 3 if np.size(e) % 2 else 2) if extra else ())
     proj = PROJ.get(pname)
     shape_ok, obs, entries = True, [], []
     try:
@@ -401,9 +414,12 @@ def meddist_case(vd, e, n, ks, pname, kind, extra=False, rnd=None):
     # the projection sees what n_1d_arrays makes of the arguments (dtype kept): apply it to exactly that
     pe, pn = (rav(e), rav(n)) if proj is None else proj(rav(pe_), rav(pn_))
     term = "c15_meddist %s %s %s %s" % (dl(pe), dl(pn), cbool(shape_ok), cobs)
-    repro = ("import verde; from harness.c15 import mk, PROJ\nc=(mk(%r, %r), mk(%r, %r))\n"
+    repro = ("import numpy as np, verde; from harness.c15 import mk, PROJ, extras\nc=(mk(%r, %r), mk(%r, %r))\n"
+             "%s"
              "for k in %r: print(k, verde.median_distance(c, k_nearest=k, projection=PROJ.get(%r)))" % (
-                 fl(e), tags[0], fl(n), tags[1], list(ks), pname))
+                 fl(e), tags[0], fl(n), tags[1],
+                 "c += extras(np.shape(c[0]), 3 if np.size(c[0]) % 2 else 2)  # extra (vertical, time) coordinates\n" if extra else "",
+                 list(ks), pname))
     return Case({"fn": "median_distance", "k_nearest": list(ks), "easting": fl(e), "northing": fl(n), "projection": pname, "extra_coords": extra,
                  "presentation": tags},
                 {"distances": obs, "shape_ok": shape_ok}, term, repro, kind)
@@ -426,7 +442,7 @@ def gen_meddist(vd, rnd, tier, cases):
         # one case for the odd k, one for the even k (the keys of every point are sorted once per case)
         for sub, tag in ((ks[0::2], "odd"), (ks[1::2], "even")):
             if sub:
-                cases.append(meddist_case(vd, e, nn, sub, pname, "median_distance-%s-%s" % (mode, tag), extra=(c % 5 == 0), rnd=rnd))
+                cases.append(meddist_case(vd, e, nn, sub, pname, "median_distance-%s-%s" % (mode, tag), extra=(c % 3 == 0), rnd=rnd))
     # regular grid of the docstring: corners see [1, 1, sqrt 2, 2]
     g = vd.grid_coordinates((5, 10, -20, -17), spacing=1)
     cases.append(meddist_case(vd, g[0], g[1], [1, 2, 3, 4, 5, 8], None, "median_distance-grid"))
@@ -455,8 +471,8 @@ def mask_case(vd, de, dn, md, qe, qn, pname, kind, extra=False, scalar_data=Fals
     if rnd is not None:
         (ade, adn), tags["data"] = presentall(rnd, (de, dn), ("layout", "series", "list", "dtype"))
         (aqe, aqn), tags["query"] = presentall(rnd, (qe, qn), ("layout", "series", "dtype"))
-    dcoords = (ade, adn) + ((np.zeros(np.shape(de)),) if extra else ())
-    qcoords = (aqe, aqn) + ((np.zeros(np.shape(qe)) + 1.0,) if extra else ())
+    dcoords = (ade, adn) + (extras(np.shape(de), 5) if extra else ())
+    qcoords = (aqe, aqn) + (extras(np.shape(qe), 2) if extra else ())
     if scalar_data:
         dcoords = (float(de[0]), float(dn[0]))
     if pname is None:
@@ -479,10 +495,12 @@ def mask_case(vd, de, dn, md, qe, qn, pname, kind, extra=False, scalar_data=Fals
     except Exception as ex:  # noqa
         shape_ok, obs, cobs = False, "%s: %s" % (type(ex).__name__, ex), "None"
     term = "c15_mask %s %s %s %s %s %s %s %s" % (cproj, cD(md), dl(pde), dl(pdn), dl(pqe), dl(pqn), cbool(shape_ok), cobs)
-    repro = ("import verde; from harness.c15 import mk, PROJ, AFF, aff_fn\n"
+    repro = ("import numpy as np, verde; from harness.c15 import mk, PROJ, AFF, aff_fn, extras\n"
              "p=%r; proj=None if p is None else (aff_fn(AFF[p]) if p in AFF else PROJ[p])\n"
-             "print(verde.distance_mask((mk(%r, %r), mk(%r, %r)), %r, coordinates=(mk(%r, %r), mk(%r, %r)), projection=proj))" % (
-                 pname, fl(de), tags["data"][0], fl(dn), tags["data"][1], md, fl(qe), tags["query"][0], fl(qn), tags["query"][1]))
+             "d=(mk(%r, %r), mk(%r, %r)); q=(mk(%r, %r), mk(%r, %r))\n"
+             "if %r: d += extras(np.shape(d[0]), 5); q += extras(np.shape(q[0]), 2)  # extra (vertical, time) coordinates\n"
+             "print(verde.distance_mask(d, %r, coordinates=q, projection=proj))" % (
+                 pname, fl(de), tags["data"][0], fl(dn), tags["data"][1], fl(qe), tags["query"][0], fl(qn), tags["query"][1], bool(extra), md))
     return Case({"fn": "distance_mask", "maxdist": md, "data_easting": fl(de), "data_northing": fl(dn), "easting": fl(qe), "northing": fl(qn),
                  "projection": pname, "extra_coords": extra, "scalar_data": scalar_data, "presentation": tags},
                 {"mask": obs, "shape_ok": shape_ok}, term, repro, kind)
@@ -534,7 +552,7 @@ def gen_mask(vd, rnd, tier, cases):
             md = rnd.choice(exactp) if exactp else md
         if c % 2 and qe.size > 1:
             qe, qn = reshape2(rnd, qe, qn)
-        cases.append(mask_case(vd, de, dn, md, qe, qn, pname, "mask-lattice" + ("" if pname is None else "-affine"), extra=(c % 7 == 0), rnd=rnd))
+        cases.append(mask_case(vd, de, dn, md, qe, qn, pname, "mask-lattice" + ("" if pname is None else "-affine"), extra=(c % 3 == 1), rnd=rnd))
     nr = 40 if tier == "quick" else 130
     for c in range(nr):
         mode = ["uniform", "jitter", "far"][c % 3]
@@ -554,7 +572,35 @@ def gen_mask(vd, rnd, tier, cases):
 # ---------------------------------------------------------------------------
 # distance_mask, grid form
 # ---------------------------------------------------------------------------
-def grid_case(vd, de, dn, md, east, north, pname, dims, kind, twovars=False, rnd=None):
+def build_grid(how, dims, aeast, anorth, avals, other=None):
+    """the same valid (northing, easting) grid built in several ways; in all but the first the Dataset-level
+    dimension order (grid.sizes / grid.dims) is easting first while the variables stay (northing, easting)"""
+    import xarray as xr
+    dn_, de_ = dims
+    if how == "dataset":
+        data_vars = {"scalars": (list(dims), avals)}
+        if other is not None:
+            data_vars["other"] = (list(dims), other)
+        return xr.Dataset(data_vars, coords={de_: aeast, dn_: anorth})
+    if how == "dataarray-east-first":
+        grid = xr.DataArray(avals, coords={de_: aeast, dn_: anorth}, dims=(dn_, de_)).to_dataset(name="scalars")
+    elif how == "coords-then-assign":
+        grid = xr.Dataset(coords={de_: aeast, dn_: anorth})
+        grid["scalars"] = ((dn_, de_), avals)
+    elif how == "east-first-variable-first":     # a 1-D variable along easting declared before the 2-D one
+        grid = xr.Dataset({"scalars": ((dn_, de_), avals)}, coords={de_: aeast, dn_: anorth})
+        grid = xr.Dataset(coords={de_: grid[de_]}).merge(grid)
+    else:
+        raise ValueError(how)
+    if other is not None:
+        grid["other"] = ((dn_, de_), other)
+    return grid
+
+
+GRID_HOW = ("dataset", "dataarray-east-first", "coords-then-assign", "east-first-variable-first")
+
+
+def grid_case(vd, de, dn, md, east, north, pname, dims, kind, twovars=False, rnd=None, how="dataset"):
     import xarray as xr
     nn, ne = len(north), len(east)
     vals = np.arange(1.0, nn * ne + 1).reshape(nn, ne)
@@ -566,10 +612,7 @@ def grid_case(vd, de, dn, md, east, north, pname, dims, kind, twovars=False, rnd
         (aeast, anorth), tags["grid_coords"] = presentall(rnd, (east, north), ("layout", "dtype"))
         (avals,), tags["grid_values"] = presentall(rnd, (vals,), ("layout",))
         mesh, tags["array_form_coords"] = presentall(rnd, mesh, ("layout", "dtype"))
-    data_vars = {"scalars": (list(dims), avals)}
-    if twovars:
-        data_vars["other"] = (list(dims), -vals)
-    grid = xr.Dataset(data_vars, coords={dims[1]: aeast, dims[0]: anorth})
+    grid = build_grid(how, dims, aeast, anorth, avals, -vals if twovars else None)
     if pname is None:
         proj, cproj = None, "ident"
     else:
@@ -595,14 +638,17 @@ def grid_case(vd, de, dn, md, east, north, pname, dims, kind, twovars=False, rnd
     except Exception as ex:  # noqa
         shape_ok, oarr, carr = False, "%s: %s" % (type(ex).__name__, ex), "None"
     term = "c15_grid %s %s %s %s %s %s %s %s %s %s" % (cproj, cD(md), dl(de), dl(dn), dl(east), dl(north), dl(vals), cbool(shape_ok), cgrid, carr)
-    repro = ("import verde, numpy as np, xarray as xr; e=np.array(%r); n=np.array(%r); "
-             "g=xr.Dataset({'scalars': (%r, np.arange(1.0, e.size*n.size+1).reshape(n.size, e.size))}, coords={%r: e, %r: n}); "
-             "print(verde.distance_mask((np.array(%r), np.array(%r)), %r, grid=g).scalars.values)  # projection: %s"
-             % (fl(east), fl(north), list(dims), dims[1], dims[0], fl(de), fl(dn), md, pname))
+    repro = ("import verde, numpy as np; from harness.c15 import build_grid, AFF, aff_fn; e=np.array(%r); n=np.array(%r)\n"
+             "g=build_grid(%r, %r, e, n, np.arange(1.0, e.size*n.size+1).reshape(n.size, e.size)); p=%r\n"
+             "print(dict(g.sizes), g.scalars.dims)\n"
+             "print(verde.distance_mask((np.array(%r), np.array(%r)), %r, grid=g, projection=None if p is None else aff_fn(AFF[p])).scalars.values)\n"
+             "print(verde.distance_mask((np.array(%r), np.array(%r)), %r, coordinates=np.meshgrid(e, n), projection=None if p is None else aff_fn(AFF[p])))"
+             % (fl(east), fl(north), how, tuple(dims), pname, fl(de), fl(dn), md, fl(de), fl(dn), md))
     if tags:
         repro += "\n# presentations (harness.c15.mk): %r; array form called on mk(np.meshgrid(e, n)[i], tag_i)" % (tags,)
     return Case({"fn": "distance_mask(grid=)", "maxdist": md, "data_easting": fl(de), "data_northing": fl(dn), "grid_easting": fl(east),
-                 "grid_northing": fl(north), "dims": list(dims), "projection": pname, "two_vars": twovars, "presentation": tags},
+                 "grid_northing": fl(north), "dims": list(dims), "projection": pname, "two_vars": twovars, "presentation": tags,
+                 "dataset_built_by": how},
                 {"grid_values": obs, "array_form": oarr, "shape_ok": shape_ok}, term, repro, kind)
 
 
@@ -633,7 +679,8 @@ def gen_grid(vd, rnd, tier, cases):
         if pname is not None:
             md = md * rnd.choice([1, 2])
         cases.append(grid_case(vd, de, dn, float(md), east.astype(float), north.astype(float), pname, dimnames[c % len(dimnames)],
-                               "mask-grid" + ("-square" if nn == ne else "") + ("" if pname is None else "-affine"), twovars=(c % 6 == 0), rnd=rnd))
+                               "mask-grid" + ("-square" if nn == ne else "") + ("" if pname is None else "-affine"), twovars=(c % 6 == 0), rnd=rnd,
+                               how=GRID_HOW[(c // 2) % len(GRID_HOW)]))
     # the docstring example
     coords = vd.grid_coordinates((0, 5, -10, -4), spacing=1)
     cases.append(grid_case(vd, np.array([3.5]), np.array([-7.5]), 2.0, coords[0][0, :], coords[1][:, 0], None, ("northing", "easting"), "mask-grid-docstring"))
